@@ -316,8 +316,77 @@ func c17(c *core.Ctx) {
 					continue
 				}
 				n++
+				if isRewrite(start) {
+					// the arm begins with the removal itself
+					c.Ob("C17.always", fname(f)+"·the fired timer always removes", pos(c, in), true, "the first thing the timer arm does is the rewrite of the instance table")
+					continue
+				}
 				miss, tr := ssax.Reach(f, start, func(in ssa.Instruction) bool { _, r := in.(*ssa.Return); return r }, isRewrite, nil)
 				c.Ob("C17.always", fname(f)+"·the fired timer always removes", pos(c, in), !miss && len(rewrites) > 0, "a path from the fired timer to a return skips the rewrite of the instance table: "+boolStr(miss), trace(c, tr)...)
+			}
+		}
+		if n == 0 {
+			// the wait may live in a private helper that reports whether the timer fired (`if !s.waitUnlessClosing(d)
+			// { return }`): the paths that count start at the call and leave it by the "fired" edge
+			for _, call := range ssax.Calls(f) {
+				h := call.Common().StaticCallee()
+				cv, isVal := call.(*ssa.Call)
+				if !isVal || !isPrivateHelper(f, h) {
+					continue
+				}
+				fired, found := false, false
+				for _, hb := range h.Blocks {
+					for _, hin := range hb.Instrs {
+						sel, ok := hin.(*ssa.Select)
+						if !ok {
+							continue
+						}
+						for i, st := range sel.States {
+							if shutdownChan(st.Chan) != "timer" {
+								continue
+							}
+							arm := selectArmStart(sel, i)
+							if arm == nil {
+								continue
+							}
+							for _, r := range ssax.Returns(h) {
+								if len(r.Results) != 1 || !(ssax.Dominates(arm, r) || arm == ssa.Instruction(r)) {
+									continue
+								}
+								if k, ok := ssax.Strip(ssax.RetVal(r, 0)).(*ssa.Const); ok && k.Value != nil {
+									fired, found = k.Value.String() == "true", true
+								}
+							}
+						}
+					}
+				}
+				if !found {
+					continue
+				}
+				n++
+				notFired := func(a, b *ssa.BasicBlock) bool {
+					ifi, ok := a.Instrs[len(a.Instrs)-1].(*ssa.If)
+					if !ok || len(a.Succs) != 2 {
+						return false
+					}
+					v, pos := ifi.Cond, true
+					for {
+						if u, ok := v.(*ssa.UnOp); ok && u.Op == token.NOT {
+							v, pos = u.X, !pos
+							continue
+						}
+						break
+					}
+					if v != ssa.Value(cv) {
+						return false
+					}
+					// the edge on which the call's result equals `fired` is the one that counts
+					tookTrue := b == a.Succs[0]
+					val := tookTrue == pos
+					return val != fired
+				}
+				miss, tr := ssax.Reach(f, call, func(in ssa.Instruction) bool { _, r := in.(*ssa.Return); return r }, isRewrite, notFired)
+				c.Ob("C17.always", fname(f)+"·the fired timer always removes", pos(c, call), !miss && len(rewrites) > 0, "the wait is in "+fname(h)+"; a path from its `fired` result to a return skips the rewrite of the instance table: "+boolStr(miss), trace(c, tr)...)
 			}
 		}
 		if n == 0 {
